@@ -84,7 +84,9 @@ impl JobResult {
         for (k, v) in o.probes {
             *self.probes.entry(k).or_insert(0) += v;
         }
-        self.violations.extend(o.violations);
+        for v in o.violations {
+            self.violate(v);
+        }
         for s in o.samples {
             if self.samples.len() < 12 {
                 self.samples.push(s);
@@ -95,7 +97,7 @@ impl JobResult {
     }
     pub fn violate(&mut self, v: Violation) {
         // one report per (property, signature) and job is enough
-        if self.violations.len() < 24
+        if self.violations.len() < 40
             && !self.violations.iter().any(|x| x.property == v.property && x.signature == v.signature)
         {
             self.violations.push(v);
